@@ -1,4 +1,5 @@
 import Rivaas.Spec.Contain
+import Rivaas.Model.TimeoutAsIs
 /-
 C10 — Panics and timeouts are contained.
 
@@ -368,502 +369,254 @@ theorem lemma_t_run_induct (waitH : Bool) (P : St → Prop) (hstep : ∀ s t, P 
   | nil => exact h
   | cons t ts ih => exact ih _ (hstep s t h)
 
-/-! ### as shipped: the three ways in which the response is not "exactly one" (recorded findings) -/
+/-! ### as shipped: the three ways in which the response was not "exactly one" (findings K10a, K10b,
+K10d — fixed; `runAsIs` is the middleware before the `fix:` commits, `run` the repaired one) -/
 
-/-- K10a: deadline, timeout body, then the handler (which ignores the context) writes: the body holds
-    both JSON values. Reproduced on the real code with this very order forced by channels. -/
+/-- K10a as shipped: deadline, timeout body, then the handler (which ignores the context) writes: the
+    body holds both JSON values. Reproduced on the pre-fix code with this very order forced by channels. -/
 theorem timeout_interleave_witness :
-    let s := run false [.h, .h, .rc, .h, .rc, .h, .h, .h, .rd]
+    let s := runAsIs false [.h, .h, .rc, .h, .rc, .h, .h, .h, .rd]
       (init [.fireDl, .awaitCtx, .awaitE, .awaitT, .write])
     s.rpc = .returned ∧ s.body = [.t408, .h] ∧ timeoutOK (obsOf s) = false := by decide
 
-/-- K10a with nothing but the real timer and a handler that is merely slow: `dl` fires, the
+/-- K10a as shipped with nothing but the real timer and a handler that is merely slow: `dl` fires, the
     middleware answers 408, the handler's write lands behind it -/
 theorem timeout_interleave_timer_witness :
-    let s := run false [.dl, .rc, .rc, .h, .h, .rd] (init [.write])
+    let s := runAsIs false [.dl, .rc, .rc, .h, .h, .rd] (init [.write])
     s.rpc = .returned ∧ s.body = [.t408, .h] ∧ timeoutOK (obsOf s) = false := by decide
 
-/-- K10b: the parent context is cancelled — the middleware returns (and `ServeHTTP` puts the
+/-- K10a as shipped, the other order: the handler has started the response, the 408 body lands behind it -/
+theorem timeout_interleave_started_witness :
+    let s := runAsIs false [.h, .h, .h, .rc, .rc, .h, .h, .h, .rd] (init [.write, .fireDl, .awaitCtx, .hold, .write])
+    s.rpc = .returned ∧ s.body = [.h, .t408, .h] ∧ timeoutOK (obsOf s) = false := by decide
+
+/-- K10b as shipped: the parent context is cancelled — the middleware returns (and `ServeHTTP` puts the
     context back into the pool) while the handler goroutine is still running -/
 theorem parent_cancel_releases_early_witness :
-    let s := run false [.h, .h, .rc] (init [.firePc, .awaitCtx, .awaitRet])
+    let s := runAsIs false [.h, .h, .rc] (init [.firePc, .awaitCtx, .hold, .panic 1])
     s.rpc = .returned ∧ s.hDone = false ∧ s.releasedEarly = true ∧ timeoutOK (obsOf s) = false := by decide
 
-/-- K10d: the handler panics after the timeout body was written; the re-raised panic reaches
+/-- K10d as shipped: the handler panics after the timeout body was written; the re-raised panic reaches
     recovery, whose 500 body follows the 408 body -/
 theorem timeout_then_panic_witness :
-    let s := run false [.h, .h, .rc, .h, .rc, .h, .h, .rd]
+    let s := runAsIs false [.h, .h, .rc, .h, .rc, .h, .h, .rd]
       (init [.fireDl, .awaitCtx, .awaitE, .awaitT, .panic 0])
     s.rpc = .returned ∧ s.body = [.t408, .rec500] ∧ s.recovered = some 0 ∧ timeoutOK (obsOf s) = false := by decide
 
-/-! ### full-strength clauses (no exclusion) -/
+/-- the repaired middleware on the same five inputs and schedules: one response each, the handler
+    waited for, the panic handed to recovery -/
+theorem timeout_fixed_on_witnesses :
+    (let s := run false [.h, .h, .rc, .h, .rc, .h, .h, .h, .rd] (init [.fireDl, .awaitCtx, .awaitE, .awaitT, .write])
+     s.rpc = .returned ∧ s.body = [.t408] ∧ timeoutOK (obsOf s) = true) ∧
+    (let s := run false [.dl, .rc, .rc, .h, .h, .rd] (init [.write])
+     s.rpc = .returned ∧ s.body = [.t408] ∧ timeoutOK (obsOf s) = true) ∧
+    (let s := run false [.h, .h, .h, .rc, .rc, .h, .h, .h, .rd] (init [.write, .fireDl, .awaitCtx, .hold, .write])
+     s.rpc = .returned ∧ s.body = [.h, .h] ∧ timeoutOK (obsOf s) = true) ∧
+    (let s := run false [.h, .h, .rc, .h, .h, .rd] (init [.firePc, .awaitCtx, .hold, .panic 1])
+     s.rpc = .returned ∧ s.hDone = true ∧ s.recovered = some 1 ∧ s.body = [.rec500] ∧ timeoutOK (obsOf s) = true) ∧
+    (let s := run false [.h, .h, .rc, .h, .rc, .h, .h, .rd] (init [.fireDl, .awaitCtx, .awaitE, .awaitT, .panic 0])
+     s.rpc = .returned ∧ s.body = [.t408] ∧ s.recovered = some 0 ∧ timeoutOK (obsOf s) = true) := by decide
 
-/-- invariant behind `timeout_repanics` and `timeout_waits_for_handler` -/
-def InvR (s : St) : Prop :=
+/-! ### the repaired middleware: the whole oracle, every program, every schedule, no exclusion -/
+
+/-- the invariant: `ServeHTTP` has not returned before the handler goroutine is done and its panic is
+    with recovery; the response is in one of three states — the chain's (no timeout body, ever), claimed
+    by the timeout handler and still empty, or exactly the timeout response -/
+def InvF (s : St) : Prop :=
+  (s.rpc = .returned → s.hDone = true ∧ s.recovered = s.panicChan) ∧
   (s.rpc ≠ .returned → s.recovered = none) ∧
-  (s.rpc = .returned → s.ctx ≠ .cancelled → s.hDone = true ∧ s.recovered = s.panicChan)
+  s.releasedEarly = false ∧
+  (  (s.timedOut = false ∧ s.tWritten = false ∧ Chunk.t408 ∉ s.body ∧ s.rpc ≠ .thandler ∧
+        (s.started = true → Chunk.h ∈ s.body) ∧
+        (s.rpc ≠ .returned → s.started = false → s.body = [] ∧ s.status = none) ∧
+        (s.rpc = .returned → s.panicChan.isSome → Chunk.h ∈ s.body ∨ s.status = some .rec500))
+   ∨ (s.timedOut = true ∧ s.rpc = .thandler ∧ s.tWritten = false ∧ s.body = [] ∧ s.status = none)
+   ∨ (s.timedOut = true ∧ (s.rpc = .waitDone ∨ s.rpc = .returned) ∧ s.tWritten = true ∧
+        s.body = [Chunk.t408] ∧ s.status = some Chunk.t408))
 
-theorem lemma_finishR (s : St) (hd : s.hDone = true) (hr : s.recovered = none) :
-    (finishR s).rpc = .returned ∧ (finishR s).hDone = true ∧ (finishR s).recovered = (finishR s).panicChan ∧
-    (finishR s).ctx = s.ctx := by
-  unfold finishR
-  split <;> simp_all [St.write]
-
-theorem lemma_stepH_invR (s : St) (h : InvR s) : InvR (stepH s) := by
-  obtain ⟨h1, h2⟩ := h
+theorem lemma_stepH_invF (s : St) (h : InvF s) : InvF (stepH s) := by
   unfold stepH
   split
-  · exact ⟨h1, h2⟩
+  · exact h
   · rename_i hnd
-    have hret : s.rpc = .returned → s.ctx = .cancelled := by
-      intro hr
-      by_cases hc : s.ctx = .cancelled
-      · exact hc
-      · exact absurd (h2 hr hc).1 hnd
+    have hnr : s.rpc ≠ .returned := fun hr => hnd (h.1 hr).1
+    obtain ⟨h1, h2, h3, h4⟩ := h
     split
     all_goals (try split)
+    all_goals (first | exact ⟨h1, h2, h3, h4⟩ | skip)
     all_goals
-      refine ⟨fun hr => by simp_all [St.write], fun hr hc => ?_⟩
-      have := hret (by simpa [St.write] using hr)
-      simp_all [St.write]
+      refine ⟨fun hr => absurd hr (by simpa [St.write] using hnr), fun _ => by simpa [St.write] using h2 hnr, by simpa [St.write] using h3, ?_⟩
+    all_goals
+      rcases h4 with h4 | h4 | h4
+      all_goals simp_all [St.write]
 
-theorem lemma_stepR_invR (waitH pd : Bool) (s : St) (h : InvR s) : InvR (stepR waitH pd s) := by
-  obtain ⟨h1, h2⟩ := h
+theorem lemma_finishR_invF (s : St) (h : InvF s) (hd : s.hDone = true) (hnr : s.rpc ≠ .returned)
+    (hnt : s.rpc ≠ .thandler) : InvF (finishR s) := by
+  obtain ⟨h1, h2, h3, h4⟩ := h
+  have hrec := h2 hnr
+  unfold finishR
+  split
+  · rename_i v hv
+    split
+    · rename_i hto
+      refine ⟨fun _ => ⟨hd, by simp [hv]⟩, fun hx => by simp at hx, by simp [hd], ?_⟩
+      rcases h4 with h4 | h4 | h4
+      · simp_all
+      · simp_all
+      · exact Or.inr (Or.inr ⟨h4.1, Or.inr rfl, h4.2.2.1, h4.2.2.2.1, h4.2.2.2.2⟩)
+    · rename_i hto
+      refine ⟨fun _ => ⟨hd, by simp [hv, St.write]⟩, fun hx => by simp [St.write] at hx, by simp [hd, St.write], ?_⟩
+      rcases h4 with h4 | h4 | h4
+      · refine Or.inl ?_
+        obtain ⟨a1, a2, a3, a4, a5, a6, a7⟩ := h4
+        refine ⟨a1, a2, by simp [St.write, a3], by simp [St.write], fun hs => by simp [St.write, a5 hs], fun hx => by simp [St.write] at hx, fun _ _ => ?_⟩
+        cases hst : s.started
+        · have := a6 hnr hst
+          exact Or.inr (by simp [St.write, this.2])
+        · exact Or.inl (by simp [St.write, a5 hst])
+      · simp_all
+      · simp_all
+  · rename_i hv
+    refine ⟨fun _ => ⟨hd, by simp [hv, hrec]⟩, fun hx => by simp at hx, by simp [hd], ?_⟩
+    rcases h4 with h4 | h4 | h4
+    · refine Or.inl ?_
+      obtain ⟨a1, a2, a3, a4, a5, a6, a7⟩ := h4
+      exact ⟨a1, a2, a3, by simp, a5, fun hx => by simp at hx, fun _ hp => by simp [hv] at hp⟩
+    · exact absurd h4.2.1 hnt
+    · exact Or.inr (Or.inr ⟨h4.1, Or.inr rfl, h4.2.2.1, h4.2.2.2.1, h4.2.2.2.2⟩)
+
+theorem lemma_stepR_invF (waitH pd : Bool) (s : St) (h : InvF s) : InvF (stepR waitH pd s) := by
   cases hpc : s.rpc with
   | select =>
-    have hr : s.recovered = none := h1 (by simp [hpc])
-    simp only [stepR, hpc]
-    by_cases hcond : (s.hDone && (pd || s.ctx == .live)) = true
-    · have hd : s.hDone = true := by
-        cases hdd : s.hDone <;> simp_all
-      obtain ⟨f1, f2, f3, _⟩ := lemma_finishR s hd hr
-      simp only [hcond, if_true]
-      exact ⟨fun hn => absurd f1 hn, fun _ _ => ⟨f2, f3⟩⟩
-    · simp only [hcond, Bool.false_eq_true, if_false]
-      by_cases hl : s.ctx = .live
-      · simp only [hl, if_true]
-        exact ⟨fun _ => hr, fun hret => by simp [hpc] at hret⟩
-      · simp only [hl, if_false]
-        by_cases hdl : s.ctx = .deadline
-        · simp only [hdl, if_true]
-          exact ⟨fun _ => hr, fun hret => by simp at hret⟩
-        · simp only [hdl, if_false]
-          refine ⟨fun hn => by simp at hn, fun _ hc => ?_⟩
-          exfalso
-          apply hc
-          show s.ctx = .cancelled
-          cases hctx : s.ctx <;> simp_all
-  | thandler =>
-    have hr : s.recovered = none := h1 (by simp [hpc])
     simp only [stepR, hpc]
     split
-    · exact ⟨fun _ => hr, fun hret => by simp [hpc] at hret⟩
-    · exact ⟨fun _ => by simpa [St.write] using hr, fun hret => by simp [St.write] at hret⟩
+    · rename_i hc
+      exact lemma_finishR_invF s h (by cases hd : s.hDone <;> simp_all) (by simp [hpc]) (by simp [hpc])
+    · split
+      · exact h
+      · obtain ⟨h1, h2, h3, h4⟩ := h
+        have hrec := h2 (by simp [hpc])
+        have h4' : s.timedOut = false ∧ s.tWritten = false ∧ Chunk.t408 ∉ s.body ∧
+            (s.started = true → Chunk.h ∈ s.body) ∧ (s.started = false → s.body = [] ∧ s.status = none) := by
+          rcases h4 with h4 | h4 | h4
+          · exact ⟨h4.1, h4.2.1, h4.2.2.1, h4.2.2.2.2.1, h4.2.2.2.2.2.1 (by simp [hpc])⟩
+          · simp [hpc] at h4
+          · rcases h4.2.1 with h | h <;> simp [hpc] at h
+        split
+        · split
+          · rename_i hst
+            refine ⟨fun hx => by simp at hx, fun _ => hrec, h3, Or.inl ⟨h4'.1, h4'.2.1, h4'.2.2.1, by simp, h4'.2.2.2.1, fun _ hf => ?_, fun hx => by simp at hx⟩⟩
+            simp [hst] at hf
+          · rename_i hst
+            have := h4'.2.2.2.2 (by simpa using hst)
+            exact ⟨fun hx => by simp at hx, fun _ => hrec, h3, Or.inr (Or.inl ⟨rfl, rfl, h4'.2.1, this.1, this.2⟩)⟩
+        · exact ⟨fun hx => by simp at hx, fun _ => hrec, h3, Or.inl ⟨h4'.1, h4'.2.1, h4'.2.2.1, by simp, h4'.2.2.2.1, fun _ hf => h4'.2.2.2.2 hf, fun hx => by simp at hx⟩⟩
+  | thandler =>
+    simp only [stepR, hpc]
+    obtain ⟨h1, h2, h3, h4⟩ := h
+    have hrec := h2 (by simp [hpc])
+    split
+    · exact ⟨h1, h2, h3, h4⟩
+    · rcases h4 with h4 | h4 | h4
+      · exact absurd hpc h4.2.2.2.1
+      · exact ⟨fun hx => by simp [St.write] at hx, fun _ => by simpa [St.write] using hrec, by simpa [St.write] using h3,
+          Or.inr (Or.inr ⟨by simp [St.write, h4.1], Or.inl (by simp [St.write]), by simp [St.write], by simp [St.write, h4.2.2.2.1], by simp [St.write, h4.2.2.2.2]⟩)⟩
+      · rcases h4.2.1 with h | h <;> simp [hpc] at h
   | waitDone =>
-    have hr : s.recovered = none := h1 (by simp [hpc])
     simp only [stepR, hpc]
     split
     · rename_i hd
-      obtain ⟨f1, f2, f3, _⟩ := lemma_finishR s hd hr
-      exact ⟨fun hn => absurd f1 hn, fun _ _ => ⟨f2, f3⟩⟩
-    · exact ⟨fun _ => hr, fun hret => by simp [hpc] at hret⟩
-  | returned =>
-    simp only [stepR, hpc]
-    exact ⟨h1, h2⟩
+      exact lemma_finishR_invF s h hd (by simp [hpc]) (by simp [hpc])
+    · exact h
+  | returned => simp only [stepR, hpc]; exact h
 
-theorem lemma_step_invR (waitH : Bool) (s : St) (t : Tok) (h : InvR s) : InvR (step waitH s t) := by
+theorem lemma_step_invF (waitH : Bool) (s : St) (t : Tok) (h : InvF s) : InvF (step waitH s t) := by
   cases t with
-  | h => exact lemma_stepH_invR s h
-  | rd => exact lemma_stepR_invR waitH true s h
-  | rc => exact lemma_stepR_invR waitH false s h
-  | dl =>
-    obtain ⟨h1, h2⟩ := h
-    refine ⟨h1, fun hr hc => ?_⟩
-    apply h2 hr
-    intro hcc
-    simp [step, hcc] at hc
-  | pc =>
-    obtain ⟨h1, h2⟩ := h
-    refine ⟨h1, fun hr hc => ?_⟩
-    apply h2 hr
-    intro hcc
-    simp [step, hcc] at hc
-
-theorem lemma_init_invR (prog : List HAct) : InvR (init prog) := by
-  simp [InvR, init]
-
-/-- **Re-panic.** For every handler program and every schedule: when the middleware has returned
-    and the parent context was not cancelled, the handler goroutine has finished and whatever
-    panic it raised — before or after the deadline — has been re-raised on the request goroutine
-    and handled by recovery (`recovered = panicChan`, also when there was no panic). -/
-theorem timeout_repanics (waitH : Bool) (prog : List HAct) (sched : List Tok) :
-    let s := run waitH sched (init prog)
-    s.rpc = .returned → s.ctx ≠ .cancelled → s.recovered = s.panicChan := by
-  intro s hr hc
-  exact ((lemma_t_run_induct waitH InvR (lemma_step_invR waitH) sched _ (lemma_init_invR prog)).2 hr hc).2
-
-/-- **The timed-out request waits for its handler.** Without a parent cancel the context is never
-    handed back while the handler goroutine runs — for every schedule, deadline or not. -/
-theorem timeout_waits_for_handler (waitH : Bool) (prog : List HAct) (sched : List Tok) :
-    let s := run waitH sched (init prog)
-    s.rpc = .returned → s.ctx ≠ .cancelled → s.hDone = true := by
-  intro s hr hc
-  exact ((lemma_t_run_induct waitH InvR (lemma_step_invR waitH) sched _ (lemma_init_invR prog)).2 hr hc).1
-
-/-- non-vacuity: a run that ends `returned`, not cancelled, after a deadline and a late panic -/
-example :
-    let s := run true [.h, .h, .rc, .h, .h, .rd, .rd] (init [.fireDl, .awaitCtx, .awaitE, .panic 3])
-    s.rpc = .returned ∧ s.ctx ≠ .cancelled ∧ s.recovered = some 3 ∧ s.timedOut = true := by decide
-
-/-! ### at most one timeout body — every program, every schedule, no exclusion -/
-
-def InvT (s : St) : Prop :=
-  (s.tWritten = false ∧ s.body.count Chunk.t408 = 0) ∨
-  (s.tWritten = true ∧ s.body.count Chunk.t408 = 1 ∧ (s.rpc = .waitDone ∨ s.rpc = .returned))
-
-theorem lemma_finishR_fields (s : St) :
-    (finishR s).rpc = .returned ∧ (finishR s).tWritten = s.tWritten ∧
-    (finishR s).body.count Chunk.t408 = s.body.count Chunk.t408 ∧ (finishR s).releasedEarly = s.releasedEarly ∧
-    (finishR s).ctx = s.ctx ∧ (finishR s).hprog = s.hprog ∧ (finishR s).panicChan = s.panicChan := by
-  unfold finishR
-  split <;> simp [St.write, List.count_append]
-
-theorem lemma_stepH_fields (s : St) :
-    (stepH s).rpc = s.rpc ∧ (stepH s).tWritten = s.tWritten ∧ (stepH s).releasedEarly = s.releasedEarly ∧
-    (stepH s).recovered = s.recovered ∧ (stepH s).body.count Chunk.t408 = s.body.count Chunk.t408 := by
-  unfold stepH
-  split
-  · simp
-  · split
-    all_goals (try split)
-    all_goals simp [St.write, List.count_append]
-
-theorem lemma_step_invT (waitH : Bool) (s : St) (t : Tok) (h : InvT s) : InvT (step waitH s t) := by
-  have hR : ∀ pd, InvT (stepR waitH pd s) := by
-    intro pd
-    cases hpc : s.rpc with
-    | select =>
-      simp only [stepR, hpc]
-      have hf := lemma_finishR_fields s
-      rcases h with ⟨h1, h2⟩ | ⟨_, _, h3⟩
-      · split
-        · exact Or.inl ⟨by rw [hf.2.1]; exact h1, by rw [hf.2.2.1]; exact h2⟩
-        · split
-          · exact Or.inl ⟨h1, h2⟩
-          · split <;> exact Or.inl ⟨h1, h2⟩
-      · rcases h3 with h3 | h3 <;> simp [hpc] at h3
-    | thandler =>
-      simp only [stepR, hpc]
-      rcases h with ⟨h1, h2⟩ | ⟨_, _, h3⟩
-      · split
-        · exact Or.inl ⟨h1, h2⟩
-        · exact Or.inr ⟨rfl, by simp [St.write, List.count_append, h2], Or.inl rfl⟩
-      · rcases h3 with h3 | h3 <;> simp [hpc] at h3
-    | waitDone =>
-      simp only [stepR, hpc]
-      have hf := lemma_finishR_fields s
-      split
-      · rcases h with ⟨h1, h2⟩ | ⟨h1, h2, _⟩
-        · exact Or.inl ⟨by rw [hf.2.1]; exact h1, by rw [hf.2.2.1]; exact h2⟩
-        · exact Or.inr ⟨by rw [hf.2.1]; exact h1, by rw [hf.2.2.1]; exact h2, Or.inr hf.1⟩
-      · exact h
-    | returned => simp only [stepR, hpc]; exact h
-  cases t with
-  | h =>
-    have hf := lemma_stepH_fields s
-    show InvT (stepH s)
-    unfold InvT
-    rw [hf.1, hf.2.1, hf.2.2.2.2]
-    exact h
-  | rd => exact hR true
-  | rc => exact hR false
+  | h => exact lemma_stepH_invF s h
+  | rd => exact lemma_stepR_invF waitH true s h
+  | rc => exact lemma_stepR_invF waitH false s h
   | dl => exact h
   | pc => exact h
 
-/-- **Exactly one timeout response.** Whatever the handler does and however the two goroutines,
-    the timer and the client interleave, the timeout body is written at most once. -/
-theorem timeout_body_at_most_once (waitH : Bool) (prog : List HAct) (sched : List Tok) :
-    (run waitH sched (init prog)).body.count Chunk.t408 ≤ 1 := by
-  have := lemma_t_run_induct waitH InvT (lemma_step_invT waitH) sched (init prog) (Or.inl ⟨rfl, rfl⟩)
-  rcases this with ⟨_, h⟩ | ⟨_, h, _⟩ <;> omega
+theorem lemma_init_invF (prog : List HAct) : InvF (init prog) := by
+  simp [InvF, init]
 
-/-! ### the partial theorem: outside the recorded classes the whole oracle holds -/
-
-theorem lemma_stepH_hprog (s : St) : ∀ a ∈ (stepH s).hprog, a ∈ s.hprog := by
-  unfold stepH
-  split
-  · exact fun a h => h
-  · split
-    all_goals (try split)
-    all_goals
-      intro a h
-      first
-        | exact h
-        | (simp only [St.write] at h; simp_all; done)
-        | (simp_all; first | done | exact Or.inr (List.mem_of_mem_drop ‹_›))
-
-/-- schedule without environment events of a kind -/
-def noTok (x : Tok) (sched : List Tok) : Prop := ∀ t ∈ sched, t ≠ x
-
-theorem lemma_t_run_induct' (waitH : Bool) (P : St → Prop) (ok : Tok → Prop)
-    (hstep : ∀ s t, ok t → P s → P (step waitH s t))
-    (sched : List Tok) (hs : ∀ t ∈ sched, ok t) (s : St) (h : P s) : P (run waitH sched s) := by
-  induction sched generalizing s with
-  | nil => exact h
-  | cons t ts ih =>
-    exact ih (fun t' ht' => hs t' (List.mem_cons_of_mem _ ht')) _ (hstep s t (hs t (List.mem_cons_self ..)) h)
-
-/-- (a) neither a deadline nor a cancellation can happen: the handler finishes first -/
-def InvA (s : St) : Prop :=
-  s.ctx = .live ∧ (∀ a ∈ s.hprog, a ≠ .fireDl ∧ a ≠ .firePc) ∧ s.releasedEarly = false ∧
-  s.tWritten = false ∧ s.body.count Chunk.t408 = 0 ∧ (s.recovered.isSome → Chunk.rec500 ∈ s.body) ∧
-  (s.rpc = .select ∨ s.rpc = .returned)
-
-theorem lemma_stepH_invA (s : St) (h : InvA s) : InvA (stepH s) := by
-  obtain ⟨h1, h2, h3, h4, h5, h6, h7⟩ := h
-  have hf := lemma_stepH_fields s
-  have hp := lemma_stepH_hprog s
-  refine ⟨?_, fun a ha => h2 a (hp a ha), by rw [hf.2.2.1]; exact h3, by rw [hf.2.1]; exact h4,
-    by rw [hf.2.2.2.2]; exact h5, ?_, by rw [hf.1]; exact h7⟩
-  · unfold stepH
-    split
-    · exact h1
-    · split
-      all_goals (try split)
-      all_goals first
-        | exact h1
-        | exact h1
-        | (exfalso; have := h2 _ (by rw [‹s.hprog = _›]; exact List.mem_cons_self ..); simp at this)
-  · rw [hf.2.2.2.1]
-    intro hr
-    have := h6 hr
-    unfold stepH
-    split
-    · exact this
-    · split
-      all_goals (try split)
-      all_goals simp [St.write, this]
-
-theorem lemma_stepR_invA (waitH pd : Bool) (s : St) (h : InvA s) : InvA (stepR waitH pd s) := by
-  obtain ⟨h1, h2, h3, h4, h5, h6, h7⟩ := h
-  have hfin : InvA (finishR s) := by
-    have hf := lemma_finishR_fields s
-    refine ⟨by rw [hf.2.2.2.2.1]; exact h1, by rw [hf.2.2.2.2.2.1]; exact h2, by rw [hf.2.2.2.1]; exact h3,
-      by rw [hf.2.1]; exact h4, by rw [hf.2.2.1]; exact h5, ?_, Or.inr hf.1⟩
-    unfold finishR
-    split
-    · intro _; simp [St.write]
-    · exact h6
-  rcases h7 with hpc | hpc
-  · simp only [stepR, hpc, h1]
-    split
-    · exact hfin
-    · simp; exact ⟨h1, h2, h3, h4, h5, h6, Or.inl hpc⟩
-  · simp only [stepR, hpc]; exact ⟨h1, h2, h3, h4, h5, h6, Or.inr hpc⟩
-
-theorem lemma_step_invA (waitH : Bool) (s : St) (t : Tok) (ht : t ≠ .dl ∧ t ≠ .pc) (h : InvA s) :
-    InvA (step waitH s t) := by
-  cases t with
-  | h => exact lemma_stepH_invA s h
-  | rd => exact lemma_stepR_invA waitH true s h
-  | rc => exact lemma_stepR_invA waitH false s h
-  | dl => exact absurd rfl ht.1
-  | pc => exact absurd rfl ht.2
-
-/-- (b) no cancellation, and the handler neither writes nor panics: at most the timeout body -/
-def InvB (s : St) : Prop :=
-  s.ctx ≠ .cancelled ∧ (∀ a ∈ s.hprog, a ≠ .firePc ∧ a ≠ .write ∧ ∀ v, a ≠ .panic v) ∧
-  s.panicChan = none ∧ s.recovered = none ∧ s.releasedEarly = false ∧
-  ((s.body = [] ∧ s.status = none) ∨ (s.body = [Chunk.t408] ∧ s.status = some Chunk.t408 ∧
-    (s.rpc = .waitDone ∨ s.rpc = .returned)))
-
-theorem lemma_stepH_invB (s : St) (h : InvB s) : InvB (stepH s) := by
-  obtain ⟨h1, h2, h3, h4, h5, h6⟩ := h
-  have hp := lemma_stepH_hprog s
-  have hkeep : ∀ s' : St, s'.ctx ≠ .cancelled → (∀ a ∈ s'.hprog, a ∈ s.hprog) → s'.panicChan = none →
-      s'.recovered = s.recovered → s'.releasedEarly = s.releasedEarly → s'.body = s.body →
-      s'.status = s.status → s'.rpc = s.rpc → InvB s' := by
-    intro s' c1 c2 c3 c4 c5 c6 c7 c8
-    exact ⟨c1, fun a ha => h2 a (c2 a ha), c3, by rw [c4]; exact h4, by rw [c5]; exact h5, by rw [c6, c7, c8]; exact h6⟩
-  unfold stepH
-  split
-  · exact ⟨h1, h2, h3, h4, h5, h6⟩
-  · split
-    · exact hkeep _ h1 (by simp) h3 rfl rfl rfl rfl rfl
-    · rename_i r hpr
-      exact absurd rfl (h2 .write (by rw [hpr]; exact List.mem_cons_self ..)).2.1
-    · rename_i r hpr
-      refine hkeep _ ?_ (by intro a ha; rw [hpr]; exact List.mem_cons_of_mem _ ha) h3 rfl rfl rfl rfl rfl
-      show (if s.ctx = .live then Ctx.deadline else s.ctx) ≠ .cancelled
-      split <;> simp_all
-    · rename_i r hpr
-      exact absurd rfl (h2 .firePc (by rw [hpr]; exact List.mem_cons_self ..)).1
-    · rename_i r hpr
-      split
-      · exact ⟨h1, h2, h3, h4, h5, h6⟩
-      · exact hkeep _ h1 (by intro a ha; rw [hpr]; exact List.mem_cons_of_mem _ ha) h3 rfl rfl rfl rfl rfl
-    · rename_i r hpr
-      split
-      · exact hkeep _ h1 (by intro a ha; rw [hpr]; exact List.mem_cons_of_mem _ ha) h3 rfl rfl rfl rfl rfl
-      · exact ⟨h1, h2, h3, h4, h5, h6⟩
-    · rename_i r hpr
-      split
-      · exact hkeep _ h1 (by intro a ha; rw [hpr]; exact List.mem_cons_of_mem _ ha) h3 rfl rfl rfl rfl rfl
-      · exact ⟨h1, h2, h3, h4, h5, h6⟩
-    · rename_i r hpr
-      exact hkeep _ h1 (by intro a ha; rw [hpr]; exact List.mem_cons_of_mem _ ha) h3 rfl rfl rfl rfl rfl
-    · rename_i r hpr
-      split
-      · exact hkeep _ h1 (by intro a ha; rw [hpr]; exact List.mem_cons_of_mem _ ha) h3 rfl rfl rfl rfl rfl
-      · exact ⟨h1, h2, h3, h4, h5, h6⟩
-    · rename_i r hpr
-      exact hkeep _ h1 (by intro a ha; rw [hpr]; exact List.mem_cons_of_mem _ ha) h3 rfl rfl rfl rfl rfl
-    · rename_i v r hpr
-      exact absurd rfl ((h2 (.panic v) (by rw [hpr]; exact List.mem_cons_self ..)).2.2 v)
-    · rename_i n r hpr
-      refine hkeep _ h1 ?_ h3 rfl rfl rfl rfl rfl
-      intro a ha
-      rw [hpr]
-      simp only [] at ha
-      split at ha
-      · exact List.mem_cons_of_mem _ ha
-      · exact List.mem_cons_of_mem _ (List.mem_of_mem_drop ha)
-
-theorem lemma_stepR_invB (waitH pd : Bool) (s : St) (h : InvB s) : InvB (stepR waitH pd s) := by
-  obtain ⟨h1, h2, h3, h4, h5, h6⟩ := h
-  have hfin : finishR s = { s with rpc := .returned } := by simp [finishR, h3]
-  cases hpc : s.rpc with
-  | select =>
-    simp only [stepR, hpc]
-    have h6' : s.body = [] ∧ s.status = none := by
-      rcases h6 with h | ⟨_, _, h | h⟩
-      · exact h
-      · simp [hpc] at h
-      · simp [hpc] at h
-    split
-    · rw [hfin]; exact ⟨h1, h2, h3, h4, h5, Or.inl h6'⟩
-    · split
-      · exact ⟨h1, h2, h3, h4, h5, h6⟩
-      · split
-        · exact ⟨h1, h2, h3, h4, h5, Or.inl h6'⟩
-        · rename_i hl hd
-          exfalso; apply h1
-          cases hctx : s.ctx <;> simp_all
-  | thandler =>
-    simp only [stepR, hpc]
-    have h6' : s.body = [] ∧ s.status = none := by
-      rcases h6 with h | ⟨_, _, h | h⟩
-      · exact h
-      · simp [hpc] at h
-      · simp [hpc] at h
-    split
-    · exact ⟨h1, h2, h3, h4, h5, h6⟩
-    · exact ⟨h1, h2, h3, h4, h5, Or.inr ⟨by simp [St.write, h6'.1], by simp [St.write, h6'.2], Or.inl rfl⟩⟩
-  | waitDone =>
-    simp only [stepR, hpc]
-    split
-    · rw [hfin]
-      refine ⟨h1, h2, h3, h4, h5, ?_⟩
-      rcases h6 with h | ⟨ha, hb, _⟩
-      · exact Or.inl h
-      · exact Or.inr ⟨ha, hb, Or.inr rfl⟩
-    · exact ⟨h1, h2, h3, h4, h5, h6⟩
-  | returned => simp only [stepR, hpc]; exact ⟨h1, h2, h3, h4, h5, h6⟩
-
-theorem lemma_step_invB (waitH : Bool) (s : St) (t : Tok) (ht : t ≠ .pc) (h : InvB s) :
-    InvB (step waitH s t) := by
-  cases t with
-  | h => exact lemma_stepH_invB s h
-  | rd => exact lemma_stepR_invB waitH true s h
-  | rc => exact lemma_stepR_invB waitH false s h
-  | dl =>
-    obtain ⟨h1, h2, h3, h4, h5, h6⟩ := h
-    refine ⟨?_, h2, h3, h4, h5, h6⟩
-    show (if s.ctx = .live then Ctx.deadline else s.ctx) ≠ .cancelled
-    split <;> simp_all
-  | pc => exact absurd rfl ht
-
-theorem lemma_contains_false {α} [BEq α] [LawfulBEq α] (l : List α) (x : α) (h : l.contains x = false) :
-    ∀ a ∈ l, a ≠ x := by
-  intro a ha hax
-  subst hax
-  have : l.contains a = true := by simpa using ha
-  rw [this] at h
-  exact Bool.noConfusion h
-
-/-- **Partial theorem.** Outside the three recorded classes — K10b (the parent context can be
-    cancelled), K10a (a deadline is possible and the handler writes), K10d (a deadline is possible
-    and the handler panics), each a decidable predicate on the *input* — the as-is middleware
-    satisfies the whole timeout oracle whenever it has returned: for every handler program and
-    every schedule of the two goroutines and the timer. -/
-theorem timeout_partial (waitH : Bool) (prog : List HAct) (sched : List Tok)
-    (ha : dK10a prog sched = false) (hb : dK10b prog sched = false) (hd : dK10d prog sched = false) :
-    (run waitH sched (init prog)).rpc = .returned → timeoutOK (obsOf (run waitH sched (init prog))) = true := by
-  intro hret
-  simp only [dK10b, cancelPossible, Bool.or_eq_false_iff] at hb
-  have hnpc_prog := lemma_contains_false _ _ hb.1
-  have hnpc : ∀ t ∈ sched, t ≠ Tok.pc := lemma_contains_false _ _ hb.2
-  have hR := lemma_t_run_induct waitH InvR (lemma_step_invR waitH) sched _ (lemma_init_invR prog)
-  by_cases hdp : deadlinePossible prog sched = true
-  · -- a deadline is possible: then the handler neither writes nor panics
-    have hw : hasWrite prog = false := by simpa [dK10a, hdp] using ha
-    have hp : hasPanic prog = false := by simpa [dK10d, hdp] using hd
-    have hnw := lemma_contains_false _ _ hw
-    have hnp : ∀ a ∈ prog, ∀ v, a ≠ HAct.panic v := by
-      intro a ha' v hv
-      subst hv
-      have : hasPanic prog = true := by
-        unfold hasPanic
-        exact List.any_eq_true.mpr ⟨_, ha', rfl⟩
-      simp [hp] at this
-    have h0 : InvB (init prog) :=
-      ⟨by simp [init], fun a ha' => ⟨hnpc_prog a ha', hnw a ha', hnp a ha'⟩, rfl, rfl, rfl, Or.inl ⟨rfl, rfl⟩⟩
-    have hB := lemma_t_run_induct' waitH InvB (· ≠ Tok.pc) (fun s t ht h => lemma_step_invB waitH s t ht h)
-      sched hnpc _ h0
-    generalize run waitH sched (init prog) = s at *
-    obtain ⟨_, _, b3, _, b5, b6⟩ := hB
-    rcases b6 with ⟨hb1, hb2⟩ | ⟨hb1, hb2, _⟩
-    · simp [timeoutOK, obsOf, b3, b5, hb1]
-    · simp [timeoutOK, obsOf, b3, b5, hb1, hb2]
-  · -- no deadline, no cancellation: the handler finishes first
-    have hdp' : deadlinePossible prog sched = false := by simpa using hdp
-    simp only [deadlinePossible, Bool.or_eq_false_iff] at hdp'
-    have hndl_prog := lemma_contains_false _ _ hdp'.1
-    have hndl : ∀ t ∈ sched, t ≠ Tok.dl := lemma_contains_false _ _ hdp'.2
-    have h0 : InvA (init prog) :=
-      ⟨rfl, fun a ha' => ⟨hndl_prog a ha', hnpc_prog a ha'⟩, rfl, rfl, rfl, by simp [init], Or.inl rfl⟩
-    have hA := lemma_t_run_induct' waitH InvA (fun t => t ≠ Tok.dl ∧ t ≠ Tok.pc)
-      (fun s t ht h => lemma_step_invA waitH s t ht h) sched (fun t ht => ⟨hndl t ht, hnpc t ht⟩) _ h0
-    generalize run waitH sched (init prog) = s at *
-    obtain ⟨a1, _, a3, _, a5, a6, _⟩ := hA
-    have hrec := (hR.2 hret (by rw [a1]; simp)).2
-    have hnot : s.body.contains Chunk.t408 = false := by
-      cases hc : s.body.contains Chunk.t408
-      · rfl
-      · have hm : Chunk.t408 ∈ s.body := by simpa using hc
-        have := List.count_pos_iff.mpr hm
-        omega
-    simp only [timeoutOK, obsOf, a3, hnot, a5]
+theorem lemma_invF_ok (s : St) (h : InvF s) (hr : s.rpc = .returned) : timeoutOK (obsOf s) = true := by
+  obtain ⟨h1, _, h3, h4⟩ := h
+  obtain ⟨_, hrec⟩ := h1 hr
+  rcases h4 with h4 | h4 | h4
+  · obtain ⟨_, _, a3, _, _, _, a7⟩ := h4
+    have hnot : s.body.contains Chunk.t408 = false := by simpa using a3
+    have hcnt : s.body.count Chunk.t408 = 0 := List.count_eq_zero.mpr a3
+    simp only [timeoutOK, obsOf, h3, hnot, hcnt, hrec]
     cases hp : s.panicChan.isSome
     · simp
-    · simp
-      exact a6 (by rw [hrec]; exact hp)
+    · rcases a7 hr hp with hh | hh
+      · simp [hh]
+      · simp [hh]
+  · simp [hr] at h4
+  · obtain ⟨_, _, _, hb, hs⟩ := h4
+    simp [timeoutOK, obsOf, h3, hb, hs, hrec]
+    cases s.panicChan <;> simp
 
-/-- non-vacuity of the partial theorem, both branches: a handler that writes and finishes with no
-    deadline around; and an overrunning handler that honours the context -/
+/-- **Exactly one well-formed response.** For every handler program and every schedule of request
+    goroutine, handler goroutine, timer and client: when `ServeHTTP` has returned the whole timeout
+    oracle holds — at most one timeout body, never together with handler output or recovery's body,
+    status 408 with it, the handler goroutine is over, its panic has reached recovery and is answered
+    with recovery's 500 when nothing had been written. -/
+theorem timeout_single_response (waitH : Bool) (prog : List HAct) (sched : List Tok) :
+    (run waitH sched (init prog)).rpc = .returned → timeoutOK (obsOf (run waitH sched (init prog))) = true :=
+  lemma_invF_ok _ (lemma_t_run_induct waitH InvF (lemma_step_invF waitH) sched _ (lemma_init_invF prog))
+
+/-- non-vacuity: runs that end `returned` — after a deadline and a late panic; with the response
+    started before the deadline; after a parent cancel -/
 example :
-    dK10a [.write, .write] [.h, .h, .h, .rd] = false ∧ dK10b [.write, .write] [.h, .h, .h, .rd] = false ∧
-    dK10d [.write, .write] [.h, .h, .h, .rd] = false ∧
-    (run false [.h, .h, .h, .rd] (init [.write, .write])).rpc = .returned ∧
-    (run false [.h, .h, .h, .rd] (init [.write, .write])).body = [.h, .h] := by decide
+    let s := run true [.h, .h, .rc, .h, .h, .rd, .rd] (init [.fireDl, .awaitCtx, .awaitE, .panic 3])
+    s.rpc = .returned ∧ s.recovered = some 3 ∧ s.timedOut = true ∧ s.body = [.t408] := by decide
 
 example :
-    let prog : List HAct := [.awaitCtx]
-    let sched : List Tok := [.h, .dl, .rc, .h, .rc, .h, .rd]
-    dK10a prog sched = false ∧ dK10b prog sched = false ∧ dK10d prog sched = false ∧
-    (run false sched (init prog)).rpc = .returned ∧ (run false sched (init prog)).body = [.t408] ∧
-    (run false sched (init prog)).timedOut = true := by decide
+    let s := run false [.h, .h, .h, .rc, .h, .h, .rd] (init [.write, .fireDl, .awaitCtx, .write, .panic 2])
+    s.rpc = .returned ∧ s.timedOut = false ∧ s.body = [.h, .h, .rec500] ∧ s.status = some .h := by decide
 
+/-- **Re-panic.** For every handler program and every schedule: when the middleware has returned,
+    whatever panic the handler goroutine raised — before or after the deadline, with or without a
+    parent cancel — has been re-raised on the request goroutine and handled by recovery
+    (`recovered = panicChan`, also when there was no panic). -/
+theorem timeout_repanics (waitH : Bool) (prog : List HAct) (sched : List Tok) :
+    let s := run waitH sched (init prog)
+    s.rpc = .returned → s.recovered = s.panicChan := by
+  intro s hr
+  exact ((lemma_t_run_induct waitH InvF (lemma_step_invF waitH) sched _ (lemma_init_invF prog)).1 hr).2
+
+/-- **The request waits for its handler.** The context is never handed back while the handler
+    goroutine runs — for every schedule: deadline, parent cancel or neither. -/
+theorem timeout_waits_for_handler (waitH : Bool) (prog : List HAct) (sched : List Tok) :
+    let s := run waitH sched (init prog)
+    s.rpc = .returned → s.hDone = true := by
+  intro s hr
+  exact ((lemma_t_run_induct waitH InvF (lemma_step_invF waitH) sched _ (lemma_init_invF prog)).1 hr).1
+
+/-- the timeout body is written at most once, at every moment of every execution -/
+theorem timeout_body_at_most_once (waitH : Bool) (prog : List HAct) (sched : List Tok) :
+    (run waitH sched (init prog)).body.count Chunk.t408 ≤ 1 := by
+  have h := (lemma_t_run_induct waitH InvF (lemma_step_invF waitH) sched _ (lemma_init_invF prog)).2.2.2
+  rcases h with h | h | h
+  · have := List.count_eq_zero.mpr h.2.2.1
+    omega
+  · simp [h.2.2.2.1]
+  · simp [h.2.2.2.1]
+
+/-- the response has one owner at every moment of every execution, not only at the end -/
+theorem timeout_never_interleaved (waitH : Bool) (prog : List HAct) (sched : List Tok) :
+    let s := run waitH sched (init prog)
+    Chunk.t408 ∈ s.body → s.body = [Chunk.t408] ∧ s.status = some Chunk.t408 := by
+  intro s hm
+  have h := (lemma_t_run_induct waitH InvF (lemma_step_invF waitH) sched _ (lemma_init_invF prog)).2.2.2
+  rcases h with h | h | h
+  · exact absurd hm h.2.2.1
+  · have : s.body = [] := h.2.2.2.1
+    simp [this] at hm
+  · exact ⟨h.2.2.2.1, h.2.2.2.2⟩
 
 /-- what the driver computes for a harness case (`fair`, the handler-first / request-first
     scheduler) is the run of *a* schedule — so every theorem above that quantifies over schedules
